@@ -1,6 +1,7 @@
 package main
 
 import (
+	"io"
 	"bytes"
 	"encoding/json"
 	"fmt"
@@ -54,6 +55,8 @@ func flatValues(in *Input, n *Node, fe string, out url.Values) {
 
 var envKeysSet []string
 
+var feCounter int
+
 // the data value for the remaining front ends (json is in run.go)
 func frontEndData2(c *Case) (any, func()) {
 	switch c.Fe {
@@ -62,7 +65,16 @@ func frontEndData2(c *Case) (any, func()) {
 		if err != nil {
 			panic(err)
 		}
-		req, _ := http.NewRequest("POST", "http://x.test/", bytes.NewReader(b))
+		// every other request streams its body (chunked transfer encoding: the length is not known in advance)
+		var body io.Reader = bytes.NewReader(b)
+		feCounter++
+		if feCounter%2 == 0 {
+			body = struct{ io.Reader }{body}
+		}
+		req, _ := http.NewRequest("POST", "http://x.test/", body)
+		if feCounter%4 == 0 {
+			req.ContentLength = -1 // what a server sees for a chunked request
+		}
 		req.Header.Set("Content-Type", "application/json; charset=utf-8")
 		return zhttp.Request(req), func() {}
 	case "form":
